@@ -873,15 +873,18 @@ func (m *Machine) index(x Value, idx *Term, itype types.Type) Value {
 	panic(pathAbort{abEngine, fmt.Sprintf("Index on %T", x)})
 }
 
-func (m *Machine) sliceBound(v Value, def int) int {
+func (m *Machine) sliceBound(v Value, def int, sv ssa.Value) int {
 	if v == nil {
 		return def
 	}
 	t := v.(*Term)
-	if t.IsConst() {
-		return int(sext(t.c, t.w))
+	signed := true
+	if sv != nil {
+		if b, ok := sv.Type().Underlying().(*types.Basic); ok && b.Info()&types.IsUnsigned != 0 {
+			signed = false
+		}
 	}
-	return int(int64(m.concretize(t)))
+	return m.concretizeLen(t, signed)
 }
 
 func (m *Machine) slice(instr *ssa.Slice, x, lo, hi, max Value) Value {
@@ -915,8 +918,8 @@ func (m *Machine) slice(instr *ssa.Slice, x, lo, hi, max Value) Value {
 				}
 			}
 		}
-		l := m.sliceBound(lo, 0)
-		h := m.sliceBound(hi, x.Len())
+		l := m.sliceBound(lo, 0, instr.Low)
+		h := m.sliceBound(hi, x.Len(), instr.High)
 		if l < 0 || h < l || h > x.Len() {
 			m.runtimePanic("slice-bounds", fmt.Sprintf("slice bounds out of range [%d:%d] with length %d", l, h, x.Len()))
 		}
@@ -925,9 +928,9 @@ func (m *Machine) slice(instr *ssa.Slice, x, lo, hi, max Value) Value {
 		}
 		return m.mkStr(x.sym[l:h])
 	case Slice:
-		l := m.sliceBound(lo, 0)
-		h := m.sliceBound(hi, len(x))
-		mx := m.sliceBound(max, cap(x))
+		l := m.sliceBound(lo, 0, instr.Low)
+		h := m.sliceBound(hi, len(x), instr.High)
+		mx := m.sliceBound(max, cap(x), instr.Max)
 		if l < 0 || h < l || mx < h || mx > cap(x) {
 			m.runtimePanic("slice-bounds", fmt.Sprintf("slice bounds out of range [%d:%d:%d] with capacity %d", l, h, mx, cap(x)))
 		}
@@ -940,9 +943,9 @@ func (m *Machine) slice(instr *ssa.Slice, x, lo, hi, max Value) Value {
 			m.runtimePanic("nil-deref", "invalid memory address or nil pointer dereference")
 		}
 		a := (*x).(Array)
-		l := m.sliceBound(lo, 0)
-		h := m.sliceBound(hi, len(a))
-		mx := m.sliceBound(max, len(a))
+		l := m.sliceBound(lo, 0, instr.Low)
+		h := m.sliceBound(hi, len(a), instr.High)
+		mx := m.sliceBound(max, len(a), instr.Max)
 		if l < 0 || h < l || mx < h || mx > len(a) {
 			m.runtimePanic("slice-bounds", fmt.Sprintf("slice bounds out of range [%d:%d:%d] with capacity %d", l, h, mx, len(a)))
 		}
